@@ -98,10 +98,18 @@ def val(content, c, r):
 def build(spec):
     sheets = []
     contents = []
+    overrides = []
     for si, sh in enumerate(spec['sheets']):
         content = sheet_content(spec, si)
-        contents.append(content)
         sheets.append({'title': sh['title'], 'cells': {wbk.a1(c, r): v for (c, r), v in content.items()}})
+        if spec.get('override_blanks') and not sh.get('empty'):
+            # some blank cells of the used range get their value through the executor instead: a reference must see them
+            content = dict(content)
+            for (c, r) in [tuple(b) for b in sh['blanks']][:3]:
+                if (c, r) not in content and c <= sh['ncols'] and r <= sh['nrows']:
+                    content[(c, r)] = code(si, c, r)
+                    overrides.append((sh['title'], wbk.get_column_letter(c), str(r), code(si, c, r)))
+        contents.append(content)
     host = spec['host']
     qs = []
     far = any(sh.get('far') for sh in spec['sheets'])
@@ -233,7 +241,7 @@ def build(spec):
         if h != host:
             q_.tags.append('formula-on-second-sheet')
     return {'sheets': sheets, 'queries': qs, 'sheet': spec['sheets'][host]['title'], 'first_col': first_col, 'ncols': 400,
-            'mode': 'entry' if far else 'whole', 'on': [spec['sheets'][h]['title'] for h in homes]}
+            'mode': 'entry' if far else 'whole', 'on': [spec['sheets'][h]['title'] for h in homes], 'overrides': overrides or None}
 
 
 def run_spec(spec, rec=None):
@@ -242,7 +250,7 @@ def run_spec(spec, rec=None):
     if not qs:
         return []
     outs = wbk.eval_formulas(b['sheets'], [q.formula for q in qs], sheet=b['sheet'], first_col=b['first_col'], ncols=b['ncols'],
-                             mode=b['mode'], on=b['on'])
+                             mode=b['mode'], on=b['on'], overrides=b.get('overrides'))
     fails = []
     for i, (q, o) in enumerate(zip(qs, outs)):
         if rec:
@@ -371,7 +379,7 @@ def strategy():
                 queries.append({'ref': {'sheet': 0, 'quoted': draw(st.booleans()), 'kind': draw(st.sampled_from(['cell', 'area'])), 'c0': 1, 'r0': 1,
                                         'c1': 2, 'r1': 2, 'd': [False] * 4}, 'pos': 'bare',
                                 'missing': draw(st.sampled_from(['Nope', 'Sheet99', 'data', 'DATA ', 'T2'])), 'pick': 0, 'pick2': 0, 'index_at': [], 'shift': 0})
-        return {'sheets': sheets, 'host': host, 'queries': queries}
+        return {'sheets': sheets, 'host': host, 'queries': queries, 'override_blanks': (not far_mode) and draw(st.integers(0, 3)) == 0}
     return spec().filter(lambda s: all(q.get('missing') is None or q['missing'].lower() not in {sh['title'].lower() for sh in s['sheets']} for q in s['queries']))
 
 
